@@ -7,6 +7,7 @@ import (
 	"fmt"
 	"math"
 	"runtime"
+	"sort"
 	"strings"
 	"sync"
 	"sync/atomic"
@@ -505,8 +506,8 @@ func RunExitRace(c ExitRaceCase) (hits int, v *vstat.Violation) {
 			return time.Unix(0, done.Load()), nil
 		}
 		// calibration: how long after a callback does the pool reach zero workers?
-		var sum time.Duration
-		const cal = 30
+		var samples []time.Duration
+		const cal = 31
 		for i := 0; i < cal; i++ {
 			end, v := one()
 			if v != nil {
@@ -517,9 +518,15 @@ func RunExitRace(c ExitRaceCase) (hits int, v *vstat.Violation) {
 					return vstat.V("timers:no-wind-down", "nothing is pending but the pool still has %d workers %v after the last callback (idle timeout %v)", poolWorkers(), time.Since(end), idle)
 				}
 			}
-			sum += time.Since(end)
+			samples = append(samples, time.Since(end))
 		}
-		center := sum / cal
+		// the median, capped: one stalled sample must not send the sweep (which moves 2 us per attempt) far away
+		sort.Slice(samples, func(i, j int) bool { return samples[i] < samples[j] })
+		center := samples[cal/2]
+		maxOff := 3*idle + 500*time.Microsecond
+		if center > maxOff {
+			center = maxOff
+		}
 		span := time.Duration(c.SpanUs) * time.Microsecond
 		// The arrival offset tracks the moment the worker count drops to zero (bang-bang control on what is seen at
 		// arrival), so most attempts land within a microsecond or two of the worker's exit; every 8th attempt takes a
@@ -547,6 +554,9 @@ func RunExitRace(c ExitRaceCase) (hits int, v *vstat.Violation) {
 			}
 			if off < 0 {
 				off = 0
+			}
+			if off > maxOff {
+				off = maxOff
 			}
 		}
 		_, v := one()
